@@ -1052,7 +1052,7 @@ class PW(Meta):
     def replay(self, ob):
         import json, os
         here = os.path.dirname(os.path.dirname(os.path.abspath(__file__)))
-        return ("import sys; sys.path.insert(0, %r)\nfrom native import c06b\nc06b.run_pointwise(%r, %s, %r)\n" % (here, self.cls, json.dumps(list(self.kinds)), ob.clause))
+        return ("import sys; sys.path.insert(0, %r)\nfrom native import c06b\nc06b.run_pointwise(%r, %s, %r, %r)\n" % (here, self.cls, json.dumps(list(self.kinds)), ob.clause, bool(self.rejected)))
 
 
 # class -> (fields, accepted kind tuples); every other kind tuple must be REJECTED when the dtype is announced
@@ -1245,7 +1245,8 @@ class EvaluableIsConstant(ArgsBase):
 
     def ensures(self, cx, S, result):
         from pyvc.values import zbool
-        r = zbool(result) if not isinstance(result, bool) else z3.BoolVal(result)
+        r = result.b if isinstance(result, SBool) else zbool(result) if not isinstance(result, bool) else z3.BoolVal(result)
+        r = r.b if isinstance(r, SBool) else r
         e = cx.int('e')
         w = getattr(S.A, 'witness', None)
         out = [('constant-means-no-argument', z3.Implies(r, z3.Not(S.A.mem(e))))]
